@@ -52,8 +52,9 @@ def header_tree(h):
                opt(ms.unpackinfo, lambda u: [folder_tree(f) for f in u.folders]),
                opt(ms.substreamsinfo, sub_tree)]]
     fi = h.files_info
-    return [st, opt(fi, lambda x: [file_tree(f) for f in x.files]),
-            [1 if b else 0 for b in (fi.emptyfiles if fi is not None else [])]]
+    # the EmptyFile bits as the writer uses them: one per empty-stream entry, kept with the entry
+    ef = [1 if f.get("emptyfile", False) else 0 for f in fi.files if f["emptystream"]] if fi is not None else []
+    return [st, opt(fi, lambda x: [file_tree(f) for f in x.files]), ef]
 
 
 # ------------------------------------------------------------------ tree -> python graph
@@ -112,6 +113,10 @@ def build_header(t):
                 d["attributes"] = None if ft[5][0] == [] else ft[5][0][0]
             fi.files.append(d)
         fi.emptyfiles = [x == 1 for x in t[2]]
+        flags = iter(fi.emptyfiles)
+        for d in fi.files:
+            if d["emptystream"]:
+                d["emptyfile"] = next(flags, False)
         h.files_info = fi
     return h
 
@@ -256,4 +261,4 @@ def gen_py7zr_like_header(rng, nfolders=None, with_partial=False):
         if rng.random() < 0.3:
             pack = [0, nfolders, packsizes, [1] * nfolders, [rng.getrandbits(32) for _ in range(nfolders)]]
         st = [[[pack], [folders], [[nums, [sizes], dd, dg]]]]
-    return [st, [filetrees], [e for e in ents]]
+    return [st, [filetrees], [rng.choice([0, 0, 1]) for e in ents if e]]
